@@ -214,7 +214,13 @@ fn chain(ctx: &Ctx, case: u64, out: &mut Out) {
         mon.note_existing(&start_model.names.keys().cloned().collect::<Vec<_>>());
         let ever_before = (mon.ever_max, mon.ever_max_hint);
         ctx.breadcrumb(case, &format!("link {}", link));
+        // a quarter of the chains on a file system that completes some writes only partly
+        if case % 4 == 3 {
+            crate::shim::short_writes(400_000, Rng::derive(ctx.seed, 0xC14_5000_0000 ^ case ^ ((link as u64) << 32)).next_u64() | 1);
+            out.count("episodes_with_short_writes", 1);
+        }
         let rec = run_recorded(&dir, &plan, true, |_| {});
+        crate::shim::short_writes(0, 0);
         out.count("episodes_recorded", 1);
         // monitor + model in lock step
         let mut model = start_model.clone();
